@@ -274,3 +274,5 @@ pub fn run(r: &mut Report, tag: &str) {
     }
     r.case(&format!("{}-summary", tag), json!({"scenarios": n, "model_accepts": accepted, "seed": seed}), "the crate agrees with the independent model on every scenario", format!("{} disagreements", bad), bad == 0 && accepted * 20 >= n);
 }
+
+pub fn run_differential(r: &mut Report) { run(r, "differential") }
